@@ -1130,12 +1130,17 @@ fn scan_chars(s: &str, c: char) -> isize {
 
 fn read_timebase(cur: &mut SourceCursor, song: &mut Song) -> Token {
     let v = read_arg_value(cur, song);
+    let old_timebase = song.timebase;
     song.timebase = v.to_i();
     if song.timebase <= 48 {
         song.timebase = 48;
     }
     if song.timebase > 32767 { // SMF division is 15bit (bit15 means SMPTE format)
         song.timebase = 32767;
+    }
+    // the default length is a quarter note: tracks that already exist (track 0 does) and still have it follow the time base
+    for trk in song.tracks.iter_mut() {
+        if trk.length == old_timebase { trk.length = song.timebase; }
     }
     Token::new_empty(&format!("TIMEBASE={}", v.to_i()), cur.line)
 }
